@@ -25,8 +25,10 @@ def _wc():
 
 # ------------------------------------------------------------------ case <-> objects
 def k2_of(c):
+    """the second slope as the MODEL sees it: a missing k_2 and a NaN k_2 (a frame assembled from curves with and without
+    the key has NaN there) both mean `no second slope` = infinity (class docstring of WoehlerCurve)"""
     k2 = c.get("k2")
-    if k2 is None or k2 == "inf":
+    if k2 is None or k2 in ("inf", "nan"):
         return INF
     return float(k2)
 
@@ -35,7 +37,7 @@ def int_fields_possible(c):
     """the curve can be written with Python ints only (then `pd.Series({...})` is an int64 Series, a frame has int64 columns)"""
     vals = [c["k1"], c["ND"], c["SD"]] + [c[k] for k in ("TN", "TS") if c.get(k) is not None]
     if c.get("k2") is not None:
-        if c["k2"] == "inf":
+        if c["k2"] in ("inf", "nan"):
             return False
         vals.append(c["k2"])
     return c.get("pf0") is None and all(float(v).is_integer() and abs(v) < 2 ** 53 for v in vals)
@@ -45,7 +47,7 @@ def curve_series(c):
     num = (lambda x: int(x)) if (c.get("int_fields") and int_fields_possible(c)) else float
     d = {"k_1": num(c["k1"]), "ND": num(c["ND"]), "SD": num(c["SD"])}
     if c.get("k2") is not None:
-        d["k_2"] = k2_of(c) if c["k2"] == "inf" else num(k2_of(c))
+        d["k_2"] = math.nan if c["k2"] == "nan" else k2_of(c) if c["k2"] == "inf" else num(k2_of(c))
     if c.get("TN") is not None:
         d["TN"] = num(c["TN"])
     if c.get("TS") is not None:
@@ -77,7 +79,8 @@ FIELDS = ["k_1", "k_2", "SD", "ND", "TN", "TS", "failure_probability"]
 
 
 def canon_curve(p):
-    return " ".join(f2h(float(p[f])) for f in FIELDS)
+    """the seven fields; a NaN k_2 (= the curve has no second slope) is read as infinity, as the model holds it"""
+    return " ".join(f2h(INF if (f == "k_2" and float(p[f]) != float(p[f])) else float(p[f])) for f in FIELDS)
 
 
 def fl(x):
@@ -182,8 +185,10 @@ def gen_curve(rng):
     r = rng.random()
     if r < 0.15:
         k2 = None
-    elif r < 0.35:
+    elif r < 0.31:
         k2 = "inf"
+    elif r < 0.35:
+        k2 = "nan"           # the key is there but holds NaN (row of a frame whose other rows have a second slope)
     elif r < 0.5:
         k2 = k1
     elif r < 0.65:
@@ -307,6 +312,8 @@ class C08(Prop):
             "the three Miner modifiers, all as scalar calls, a part of them with INTEGER-typed arguments (Python ints) and "
             "integer-typed curve fields (int64 Series); cycles()/load() without a failure probability = 0.5; "
             "'bc' = cycles() AND load() with list / array / Series against one curve and against a DataFrame of curves "
+            "(rows of a frame may hold NaN in k_2 = no second slope = infinite life, as a missing k_2; Fatigue.damage of a "
+            "labelled load collective against the frame) "
             "(cross product on another index name; aligned on the same index name with the labels in the frame's order, "
             "PERMUTED, a SUBSET, or with a label the frame does not have; positional for arrays), float64 / int64 / int32 / "
             "uint64 / uint32 / Python-int values, one failure probability and one per row of the frame; every broadcast is "
@@ -419,8 +426,8 @@ class C08(Prop):
                             c[key] = None
                         elif c.get(key) is None:
                             c[key] = base[key]
-                    if c["TN"] is not None and c["TS"] is not None and base["TN"] is not None:
-                        pass
+                    if c.get("k2") is not None and m > 1 and rng.random() < 0.3:
+                        c["k2"] = "nan"      # this row has no second slope: NaN in the frame's k_2 column = infinite life
                     curves.append(c)
                 if mode not in ("cross", "lcross"):
                     n = m
@@ -618,7 +625,7 @@ class C08(Prop):
         t = case["t"]
         self._count("kinds", t)
         if t == "curve":
-            self._count("k2", "missing" if case.get("k2") is None else "inf" if case["k2"] == "inf" else
+            self._count("k2", "missing" if case.get("k2") is None else "inf" if case["k2"] == "inf" else "nan" if case["k2"] == "nan" else
                         "=k1" if case["k2"] == case["k1"] else "haibach" if case["k2"] == 2 * case["k1"] - 1 else "other")
             self._count("scatter_keys", ("TN" if case.get("TN") is not None else "") + ("TS" if case.get("TS") is not None else "") or "none")
             self._count("accessor", case.get("acc", "woehler"))
@@ -748,9 +755,12 @@ class C08(Prop):
         w = accessor(case, s)
         base = w.to_pandas().copy(deep=True)
         k1, k2 = float(base.k_1), float(base.k_2)
+        if k2 != k2:
+            k2 = INF          # a NaN second slope = no second slope = perfect endurance, in cycles, load and damage
+            self.stats["curves_with_nan_k2"] = self.stats.get("curves_with_nan_k2", 0) + 1
         nat = float(base.failure_probability)
         TN, TS = float(base.TN), float(base.TS)
-        tag = f"k1={k1!r} k2={k2!r} SD={case['SD']!r} ND={case['ND']!r} TN={case.get('TN')!r} TS={case.get('TS')!r} pf0={case.get('pf0')!r}"
+        tag = f"k1={k1!r} k2={('nan (no second slope = inf)' if case.get('k2') == 'nan' else repr(k2))} SD={case['SD']!r} ND={case['ND']!r} TN={case.get('TN')!r} TS={case.get('TS')!r} pf0={case.get('pf0')!r}"
 
         # ---- no evaluation alters the curve; evaluations are repeatable (every target probability, every kind of call)
         def make():
@@ -1016,8 +1026,13 @@ class C08(Prop):
         is_load = mode in LOAD_MODES
         name = "load" if is_load else "cycles"
 
+        def ref_curve(ci):
+            # the reference for a row without a second slope (NaN in the frame) is the curve with k_2 = inf
+            c = curves[ci]
+            return curve_series({**c, "int_fields": False, "k2": "inf" if c.get("k2") == "nan" else c.get("k2")}).woehler
+
         def scalar(ci, v, q):
-            w = curve_series({**curves[ci], "int_fields": False}).woehler
+            w = ref_curve(ci)
             return fl((w.load if is_load else w.cycles)(float(v), float(q)))
 
         def judge(got, pfs_of, label):
@@ -1046,7 +1061,7 @@ class C08(Prop):
                 if str(case.get("dtype", "")).startswith("uint") and is_load:
                     # the documented defect, reproduced: `_make_k(-cyc, -ND)` negates an UNSIGNED array, which wraps around,
                     # so no cycle number counts as "beyond ND" and the k_1 branch is used there
-                    tp = curve_series({**curves[ci], "int_fields": False}).woehler.transform_to_failure_probability(float(pfs_of(ci))).to_pandas()
+                    tp = ref_curve(ci).transform_to_failure_probability(float(pfs_of(ci))).to_pandas()
                     defect = float(tp.SD) * (float(v) / float(tp.ND)) ** (-1.0 / float(tp.k_1))
                     if float(v) > float(tp.ND) and close(g, defect, 1e-12):
                         k = K_UNSIGNED
@@ -1066,6 +1081,31 @@ class C08(Prop):
             res = judge(got_rows, lambda ci: rows[ci], f"broadcast ({mode}) with per-row failure probabilities {rows!r}")
             if res is not None:
                 return res
+        # ---- damage of a load collective whose blocks carry the labels (Fatigue.damage = block cycles / cycles(amplitude)):
+        # zero for infinite life (k_2 = inf, missing or NaN), NaN only for a block whose label has no curve
+        if mode == "zip_series" and not case.get("dtype"):
+            import pylife.stress.collective  # noqa: F401
+            labels = case.get("labels") or [3 * i + 2 for i in range(len(curves))]
+            lc = pd.DataFrame({"range": [2.0 * float(v) for v in vals], "mean": 0.0, "cycles": 1000.0},
+                              index=pd.MultiIndex.from_arrays([labels, [0] * len(labels)], names=["curve", "cycle_number"]))
+            try:
+                dmg = self._frame(curves).fatigue.damage(lc.load_collective)
+            except Exception as e:
+                return (f"Fatigue.damage raised {type(e).__name__}: {e}; {what}", "broadcast-error")
+            frame = [3 * i + 2 for i in range(len(curves))]
+            for lab, v in zip(labels, vals):
+                if (lab, 0) not in dmg.index:
+                    return (f"Fatigue.damage: the block labelled {lab!r} is missing in the result {dict(dmg)!r}; {what}", "broadcast-shape")
+                g = float(dmg[(lab, 0)])
+                if lab not in frame:
+                    if g == g:
+                        return (f"Fatigue.damage: block {lab!r} has no curve but damage {g!r}; {what}", "broadcast")
+                    continue
+                want = 1000.0 / scalar(frame.index(lab), v, 0.5)
+                if not close(g, want, 1e-13):
+                    return (f"Fatigue.damage of the block labelled {lab!r} (amplitude {v!r}, 1000 cycles) = {g!r}, "
+                            f"1000 / cycles(amplitude) of curve {frame.index(lab)} = {want!r}; {what}", "damage")
+            self.stats["damage_checks"] = self.stats.get("damage_checks", 0) + 1
         return None
 
     def _oracle_sc(self, case):
